@@ -1331,11 +1331,14 @@ class SubElementTextListProperty(_ElementListProperty):
 
     def __init__(self, sub_element_name: etree.QName | None, value_class: Any, is_optional: bool = True):
         super().__init__(sub_element_name, ListConverter(ClassCheckConverter(value_class)), is_optional=is_optional)
+        self._value_class = value_class
 
     def get_py_value_from_node(self, instance: Any, node: xml_utils.LxmlElement) -> Any:  # noqa: ARG002
         """Read value from node."""
         nodes = node.findall(self._sub_element_name)
-        return [_node.text for _node in nodes]
+        # an empty element is an empty string (like NodeStringProperty); other value classes are created from the text
+        texts = [_node.text or '' for _node in nodes]
+        return texts if self._value_class is str else [self._value_class(text) for text in texts]
 
     def update_xml_value(self, instance: Any, node: xml_utils.LxmlElement):
         """Write value to node."""
@@ -1354,7 +1357,7 @@ class SubElementTextListProperty(_ElementListProperty):
         for val in py_value:
             child = etree.SubElement(node, self._sub_element_name)
             try:
-                child.text = val
+                child.text = val if isinstance(val, str) else str(val)
             except TypeError as ex:
                 # re-raise with better info about data
                 raise TypeError(f'{ex} in {self}') from ex  # noqa: EM102
